@@ -90,6 +90,8 @@ class EvalNode:
         self.engine = terms.Engine(prog, inline=True, hooks=self.hooks)
         self.summ = self.engine.summary(self.fn) if self.fn else None
         self.params = self.fn.param_names() if self.fn else []
+        import norm
+        self.nz = norm.Normalizer()
 
     def ok(self):
         return self.fn is not None and self.summ is not None and len(self.params) >= 5
@@ -106,7 +108,8 @@ class EvalNode:
             verdict, residual = partial.eval_pc(pc, mapping, memo)
             if verdict is False:
                 continue
-            t = partial.simplify(subst(term, mapping), memo)
+            t = self.nz(partial.simplify(subst(term, mapping), memo))
+            residual = [(c[0], self.nz(c[1])) + tuple(c[2:]) for c in residual]
             out.append({"term": t, "residual": residual, "kind": kind, "node": node, "pc": pc})
         return out
 
@@ -118,16 +121,35 @@ class NodeAlg(setalg.Alg):
     def interp(self, t):
         if isinstance(t, tuple) and t and t[0] in ("rec", "call") and isinstance(t[1], str) and t[1].endswith("::eval_node") and len(t[2]) >= 4:
             a = t[2]
+            const = constant_node(a[0])
+            if const is True:
+                return ("atom", ("unit", self.canon(a[1])))       # the constants are known (C01-R1 atoms): true = unit(graph)
+            if const is False:
+                return setalg.FALSE
             return ("atom", ("rec", "eval_node", self.canon(a[0]), self.canon(a[1]), self.canon(a[3])))
         return super().interp(t)
 
     def canon(self, t):
         if isinstance(t, tuple) and t and t[0] in ("rec", "call") and isinstance(t[1], str) and t[1].endswith("::eval_node") and len(t[2]) >= 4:
-            return self.interp(t)[1]
+            e = self.interp(t)
+            return e[1] if e[0] == "atom" else ("sig", self.sig(e))
         d = domset_label(t)
         if d is not None:
             return ("domset", self.canon(d))
         return super().canon(t)
+
+
+def constant_node(n):
+    """True / False if the node term is the constant terminal, else None."""
+    if n[0] == "struct":
+        for f, v in n[2]:
+            if f == "node_type" and v[0] == "ctor" and str(v[1]).endswith("NodeType::Terminal") and v[2] and v[2][0][0] == "ctor":
+                l = str(v[2][0][1]).rsplit("::", 1)[-1]
+                if l == "True":
+                    return True
+                if l == "False":
+                    return False
+    return None
 
 
 def domset_label(t):
@@ -136,6 +158,12 @@ def domset_label(t):
         return None
     if t[0] == "domset":
         return t[1]
+    if t[0] == "proj" and len(t) == 4 and t[3] == 0 and str(t[2]).endswith("Some") and t[1][0] == "call" and t[1][1] == "#map::get" and len(t[1][2]) == 2:
+        m = t[1][2][0]
+        while m[0] == "mut":
+            m = m[1]
+        if m[0] == "field" and m[2] == "domain_raw_sets":
+            return t[1][2][1]
     if t[0] == "call" and isinstance(t[1], str) and t[1].rsplit("::", 1)[-1] in ("unwrap", "expect") and t[2]:
         g = t[2][0]
         if g[0] == "call" and isinstance(g[1], str) and g[1].rsplit("::", 1)[-1] == "get" and len(g[2]) == 2:
